@@ -13,8 +13,8 @@ args = [a for a in sys.argv[1:] if not a.startswith('--')]
 name = args[0]
 seed = f'/verif/seeded/{name}'
 meta_p = os.path.join(seed, 'meta.json')
-meta = json.load(open(meta_p)) if os.path.exists(meta_p) else {'property': name.split('_')[0]}
-props = args[1:] or [meta.get('property', name.split('_')[0])]
+meta = json.load(open(meta_p)) if os.path.exists(meta_p) else {'property': name[:3]}
+props = args[1:] or [meta.get('property', name[:3])]
 tier = 'quick'
 wt = f'/tmp/wt/_run_{name}'
 copy = f'/tmp/vmut/{name}'
